@@ -519,6 +519,37 @@ fn sessions(ctx: &Ctx, shard: usize, n: u64, rep: &mut Report) {
             }
         }
     }
+    if (5..9).contains(&shard) {
+        // near-twin messages one after the other through one bus: what goes out is the message just handed over, not a
+        // neighbour of it that was sent a moment ago (same offset with no data / one 00 byte / one other byte / more
+        // bytes; the same one-byte frame under a neighbouring type or address)
+        {
+            let (a, b) = [(0x0010u16, 0x00u8), (0x0000, 0x00), (0xFFFF, 0xFF), (0x0003, 0x0F)][shard - 5];
+            let family: Vec<RefMsg> = vec![
+                RefMsg::Data { offset: a, data: vec![] },
+                RefMsg::Data { offset: a, data: vec![0x00] },
+                RefMsg::Data { offset: a, data: vec![b] },
+                RefMsg::Data { offset: a, data: vec![b, 0x00] },
+                RefMsg::Data { offset: a, data: vec![b; 16] },
+                RefMsg::Count(a),
+                RefMsg::Unknown { addr: a, ty: 0x42, data: vec![] },
+                RefMsg::Unknown { addr: a, ty: 0x42, data: vec![b] },
+                RefMsg::Unknown { addr: a, ty: 0x43, data: vec![b] },
+                RefMsg::Unknown { addr: a ^ 0x0100, ty: 0x42, data: vec![b] },
+                RefMsg::Goodbye(a),
+                RefMsg::Complete(a),
+            ];
+            for i in 0..family.len() {
+                for j in 0..family.len() {
+                    if i != j {
+                        let msgs = vec![family[i].clone(), family[j].clone(), family[i].clone(), family[j].clone()];
+                        run_session(&msgs, SENTINEL.to_vec(), vec![], vec![], vec![], WriteAct::Accept(usize::MAX), rep);
+                        rep.count("sessions_of_near_twin_messages");
+                    }
+                }
+            }
+        }
+    }
     if shard == 1 {
         // one bus instance, 70 000 messages (more than any 16-bit counter holds), each judged like any other
         let msgs: Vec<RefMsg> = (0..70_000usize).map(|i| if i % 3 == 0 { RefMsg::Query((i / 3) as u16) } else { pool(&mut rng) }).collect();
@@ -778,6 +809,7 @@ pub fn run(ctx: &Ctx) -> Outcome {
     floors.push(floor("sessions that go on after a reply was cut short (read error / end of stream mid-session)", report.get("session_read_faults_hit") > 500, report.get("session_read_faults_hit")));
     floors.push(floor("a failing read right after each kind of reply (15 reply kinds x 3 next requests x 3 positions x 4 failures)", report.get("sessions_failing_read_after_each_reply_kind") == 15 * 3 * 3 * 4, report.get("sessions_failing_read_after_each_reply_kind")));
     floors.push(floor("two ordinary exchanges after exactly k failing ones (14 counts x 5 kinds of failure)", report.get("sessions_after_k_failures") == 70, report.get("sessions_after_k_failures")));
+    floors.push(floor("near-twin messages (no data / 00 / one byte / more; neighbouring type or address) back to back through one bus, every ordered pair", report.get("sessions_of_near_twin_messages") == 4 * 12 * 11, report.get("sessions_of_near_twin_messages")));
     floors.push(floor("data chunks followed by chunk counts of 0 / 1 / k / 65535 through one bus", report.get("sessions_with_chunks_and_counts") == 16, report.get("sessions_with_chunks_and_counts")));
     floors.push(floor("one bus instance used for 70 000 messages", report.get("long_session_messages_checked") == 70_000, report.get("long_session_messages_checked")));
     floors.push(floor("multi-message sessions on one bus (write failure at every call index + random)", report.get("session_core_done") == 1 && report.get("sessions") > 1000 && report.get("session_write_failures_hit") > 100, report.get("sessions")));
